@@ -154,6 +154,20 @@ def crash_case(item):
             r = result_of(build(shape, cpdir, counter=counter))
             json.dump(dict(result=r, pulled=counter[0]), open(fres, 'w'))
         rc2 = fsrec.in_child(follow)
+        # after the follow-up run the checkpoint must be complete, and a third run must pick it up and reproduce the result
+        post2 = project(cpdir)
+        tres = os.path.join(root, 'third.res')
+
+        def third():
+            counter = [0]
+            r = result_of(build(shape, cpdir, counter=counter))
+            json.dump(dict(result=r, pulled=counter[0]), open(tres, 'w'))
+        rc3 = fsrec.in_child(third)
+        third_ok = False
+        if rc3 == 0 and os.path.exists(tres):
+            t3 = json.load(open(tres))
+            third_ok = t3['result'] == ref_result and (t3['pulled'] == 0)
+        after_follow = dict(final_complete=(post2['final_bytes'] == ref_final), active_left=post2['active'] >= 0, third_ok=third_ok)
         if rc2 == 0 and os.path.exists(fres):
             f = json.load(open(fres))
             # with no rows at all a recomputing run pulls nothing: tell by the checkpoint file it found instead
@@ -166,7 +180,7 @@ def crash_case(item):
         return dict(shape=shape, ev=ev, crash=crash,
                     post=dict(active=post['active'], final=post['final'],
                               final_complete=(post['final_bytes'] == ref_final) if post['final'] >= 0 else False),
-                    follow=follow_rec, first_rc=rc, follow_rc=rc2)
+                    follow=dict(follow_rec, **after_follow), first_rc=rc, follow_rc=rc2)
     finally:
         shutil.rmtree(root, ignore_errors=True)
 
